@@ -53,10 +53,10 @@ PROPS["C11"] = dict(
 
 PROPS["C13"] = dict(
     level="proof",
-    text="closure parameter scoping: the four real Runner methods and cleanup, extracted and verified by Verus against a ghost variable store; every exit path (Ok, error, return)",
+    text="closure parameter scoping: the four real Runner methods, insert, cleanup and ident, extracted and verified by Verus against a ghost variable store; every exit path (Ok, error, return)",
     verus=["v_closure_runner"],
     kani=[],
-    trusted=["verus prelude interp.rs + closure.rs: RuntimeState method contracts (HashMap insert/remove/entry), closure::insert and Runner::ident contracts (assumed; Kani discharge units planned)",
+    trusted=["verus prelude interp.rs + closure.rs: RuntimeState::{insert_variable, remove_variable, swap_variable} contracts (HashMap insert/remove/entry, std); closure::insert, closure::cleanup and Runner::ident are verified from their real bodies",
              "call_runner: the closure body is havoc on the store with an arbitrary outcome"],
     not_covered=["compile-time half: Builder::compile_closure restoring state.local", "the five stdlib callers beyond the frame scan that they only run closures through Runner"],
     technique="contract-based deductive verification (Verus on mechanically extracted real bodies)",
